@@ -201,7 +201,7 @@ func batchRetryScenario(s *stats, rng *rand.Rand) error {
 	s.count("batch_retry_trigger_"+sc.Trigger, 1)
 	if panicked != nil {
 		s.report(&finding{Key: "panic-in-scatter:" + srcBatchRetry, What: fmt.Sprintf("%s panicked: %v", sc.API, panicked), Size: len(w.Stores) * 1000,
-			Witness: map[string]interface{}{"world": w, "scenario": sc, "panic": fmt.Sprint(panicked)}})
+			Witness: map[string]interface{}{"world": w.clone(), "scenario": sc, "panic": fmt.Sprint(panicked)}})
 		return nil
 	}
 	if err != nil {
@@ -230,7 +230,7 @@ func batchRetryScenario(s *stats, rng *rand.Rand) error {
 		origin := byID[op.RegionID()]
 		if origin == nil {
 			s.report(&finding{Key: "scatter-operator-for-unrequested-region", What: fmt.Sprintf("%s returned an operator for region %d which was not in the request %v", sc.API, op.RegionID(), ids), Size: 1,
-				Witness: map[string]interface{}{"world": w, "scenario": sc, "operator": op.String()}})
+				Witness: map[string]interface{}{"world": w.clone(), "scenario": sc, "operator": op.String()}})
 			continue
 		}
 		s.count("batch_retry_operators", 1)
